@@ -125,7 +125,10 @@ def correspond(ctx, name, cases, ops, coq_case, coq_header, chk, judge=None, con
                 key = json.dumps(obs_list, default=str, sort_keys=True)
                 seen.setdefault(key, (obs_list, []))[1].append((cfg, op, raw))
         for key, (obs_list, who) in seen.items():
-            term = coq_case(c, obs_list)
+            try:
+                term = coq_case(c, obs_list)
+            except (ValueError, TypeError, IndexError, KeyError):
+                term = None     # non-finite / malformed output: a disagreement, to be judged
             terms.append(term)
             owners.append((ci, who, obs_list))
     stats["distinct_observations"] = len(terms)
@@ -168,7 +171,7 @@ def correspond(ctx, name, cases, ops, coq_case, coq_header, chk, judge=None, con
             if sig:
                 ctx.known_hits.append(sig)
                 continue
-            verdict = judge(c, op, cfg, raw) if judge else None
+            verdict = safe_judge(judge, c, op, cfg, raw)
             ctx.violations.append({"kind": "model-implementation-disagreement", "correspondence": name,
                                    "config": cfg, "op": op, "case": c, "implementation_returned": raw,
                                    "property_verdict_on_this_input": verdict,
@@ -179,6 +182,18 @@ def correspond(ctx, name, cases, ops, coq_case, coq_header, chk, judge=None, con
     ctx.corr[name] = stats
     if cases:
         ctx.samples.append({"correspondence": name, "case": cases[ctx.rng.randrange(len(cases))]})
+
+
+def safe_judge(judge, c, op, cfg, raw):
+    if judge is None:
+        return None
+    try:
+        return judge(c, op, cfg, raw)
+    except (TypeError, ValueError, IndexError, KeyError, ZeroDivisionError) as exc:
+        txt = json.dumps(raw, default=str)
+        if "inf" in txt or "nan" in txt:
+            return "the implementation returned a non-finite value"
+        return "the implementation returned a malformed result (%r)" % (exc,)
 
 
 def sweep(ctx, name, cases, ops, judge, configs=("pure", "speedup"), known=None):
@@ -201,7 +216,7 @@ def sweep(ctx, name, cases, ops, judge, configs=("pure", "speedup"), known=None)
         for ci, c in enumerate(cases):
             for oi, (op, _a) in enumerate(ops):
                 r = raw[ci * len(ops) + oi]
-                verdict = judge(c, op, cfg, r)
+                verdict = safe_judge(judge, c, op, cfg, r)
                 if verdict:
                     sig = known(c, op, cfg, r) if known else None
                     if sig:
